@@ -536,6 +536,8 @@ type c05World struct {
 
 	ops, outs, txs c05Intern
 
+	modSeq int
+
 	// oracle ghost: the batch of the most recent successful
 	// OrderMatchValidate (nil after a successful finalize)
 	lastOK *order.Batch
@@ -1046,12 +1048,17 @@ type c05AuctSession struct {
 
 func (w *c05World) exec(c *c05Case) {
 	r := w.r
+	violated := false
 	bad := func(what, key string) {
+		violated = true
 		r.Count("oracle/violation")
 		r.Violate(what, key, map[string]interface{}{"case": c, "history": w.hist})
 	}
 	signOK, stagedAfterOK := false, false
 	for _, cmd := range c.Cmds {
+		if violated {
+			break // a case ends at its first oracle violation
+		}
 		f := strings.Fields(cmd)
 		if len(f) == 0 {
 			continue
@@ -1119,17 +1126,7 @@ func (w *c05World) exec(c *c05Case) {
 			extra := ""
 			if res == "ok" {
 				w.lastOK = nil
-				var rows []string
-				for _, a := range w.accts {
-					acct, err := w.db.Account(a.pub)
-					if err != nil {
-						rows = append(rows, fmt.Sprintf("%d:?", a.id))
-						continue
-					}
-					rows = append(rows, fmt.Sprintf("%d:%d:%d", a.id,
-						c05Outpoint(w, acct.OutPoint), acct.Version))
-				}
-				extra = " accts=" + strings.Join(rows, ",")
+				extra = " accts=" + w.acctRows()
 			}
 			mf := 0
 			if kv["mf"] == "1" {
@@ -1147,6 +1144,41 @@ func (w *c05World) exec(c *c05Case) {
 			}
 			r.Count("unstage")
 			w.emit("C05 unstage", res+w.tail())
+
+		case "modacct":
+			// an account-modifying RPC (deposit / withdraw / renew)
+			// landing between two auctioneer messages: the account
+			// moves to a new outpoint with a new value
+			k, _ := strconv.Atoi(kv["k"])
+			if k < 1 || k > len(w.accts) {
+				continue
+			}
+			a := w.accts[k-1]
+			acct, err := w.db.Account(a.pub)
+			if err != nil {
+				continue
+			}
+			w.modSeq++
+			newOp := wire.OutPoint{Hash: chainhash.Hash{0xdd, byte(k), byte(w.modSeq)}, Index: uint32(w.modSeq % 3)}
+			err = w.db.UpdateAccount(acct,
+				account.OutPointModifier(newOp),
+				account.ValueModifier(acct.Value+btcutil.Amount(1000+w.modSeq)),
+			)
+			if err != nil {
+				r.Notes = append(r.Notes, "modacct: "+err.Error())
+				continue
+			}
+			out, _ := acct.Output()
+			r.Count("modacct")
+			if w.lastOK != nil {
+				for _, d := range w.lastOK.AccountDiffs {
+					if d.AccountKeyRaw == a.raw {
+						r.Count("modacct/of-pending-batch-account")
+					}
+				}
+			}
+			w.emit(fmt.Sprintf("C05 modacct k=%d op=%d out=%d", k, c05Outpoint(w, newOp), c05Out(w, out)),
+				"ok accts="+w.acctRows()+w.tail())
 		}
 	}
 	r.Evaluations++
@@ -1154,6 +1186,20 @@ func (w *c05World) exec(c *c05Case) {
 		r.Distinct(strings.Join(w.hist, ";"))
 	}
 	r.Sample(w.hist)
+}
+
+// acctRows renders the main-bucket account rows key:outpoint:version.
+func (w *c05World) acctRows() string {
+	var rows []string
+	for _, a := range w.accts {
+		acct, err := w.db.Account(a.pub)
+		if err != nil {
+			rows = append(rows, fmt.Sprintf("%d:?", a.id))
+			continue
+		}
+		rows = append(rows, fmt.Sprintf("%d:%d:%d", a.id, c05Outpoint(w, acct.OutPoint), acct.Version))
+	}
+	return strings.Join(rows, ",")
 }
 
 func c05Recover(f func()) (p string) {
@@ -2044,7 +2090,20 @@ func c05Gen(r *Run) *c05Case {
 				}
 			}
 		default:
-			c.Cmds = append(c.Cmds, "unstage")
+			if r.Rng.Intn(2) == 0 {
+				c.Cmds = append(c.Cmds, "unstage")
+			} else {
+				// an account-modifying RPC between two messages,
+				// preferably of an account of the pending proposal
+				k := 1 + r.Rng.Intn(n)
+				if len(curAccts) > 0 && r.Rng.Intn(4) > 0 {
+					k = curAccts[r.Rng.Intn(len(curAccts))]
+				}
+				c.Cmds = append(c.Cmds, fmt.Sprintf("modacct k=%d", k))
+				if r.Rng.Intn(2) == 0 {
+					c.Cmds = append(c.Cmds, "sign sf=- af=- st=none dropnonce=0 prev=full reopen=0")
+				}
+			}
 		}
 	}
 	return c
@@ -2063,7 +2122,7 @@ func runC05(r *Run) {
 		"proposal {honest | account input missing | bad version/height/balance/channel output | unsupported fee schedule}, " +
 		"fresh or re-proposed with the same batch ID, optional account upgrade; sign with signer fault at call k, " +
 		"account-store fault at call k, store fault before/inside the bbolt transaction, missing server nonce, " +
-		"short/empty prevouts; finalize (same/other ID, store fault); unstage. " +
+		"short/empty prevouts; finalize (same/other ID, store fault); unstage; account moved to a new outpoint by an RPC between messages. " +
 		"non-trivial = distinct history with >=1 successful BatchSign whose batch is found staged at return"
 	runCase := func(c *c05Case) {
 		if len(c.Versions) == 0 || len(c.Versions) > 3 {
@@ -2096,7 +2155,7 @@ func runC05(r *Run) {
 	if r.ReplayFile != "" {
 		return
 	}
-	for i := 0; i < r.N; i++ {
+	for i := 0; i < r.N && len(r.Violations) < 20; i++ {
 		runCase(c05Gen(r))
 	}
 }
